@@ -16,7 +16,6 @@ import (
 	"sort"
 	"strings"
 
-	"golang.org/x/tools/go/cfg"
 	"golang.org/x/tools/go/packages"
 	"golang.org/x/tools/go/types/typeutil"
 )
@@ -49,15 +48,12 @@ type c19 struct {
 	info *types.Info
 	// writer summaries: func object -> index of the path parameter it opens for writing
 	writers map[*types.Func]int
-	// remover summaries: func object -> indices of its (directory, file name) parameters when its
-	// body removes path.Join(<dir param>, <name param>)
-	removers map[*types.Func][2]int
-	interp   *fsInterp
-	results  []fsFuncResult
+	interp  *fsInterp
+	results []fsFuncResult
 }
 
 func runC19(r *Report) {
-	r.Explanation = "Pairing/ownership analysis of goag.go (S1) on the control-flow graph of the generating function: for every owned file name (constant joined to the output directory) every path to a success return settles the file (write through the single truncating writer, or os.Remove with not-exist tolerated), never removes after writing, and ends written exactly when the documented condition held (path-sensitive in the three controlling conditions). Who-may-call: the file-system mutators reachable from Generate*/main are exactly the enumerated sites. Holds for all invocation histories by induction: each successful run settles every owned file regardless of prior state."
+	r.Explanation = "Path-sensitive abstract interpretation of the driver (fsinterp.go) over go/cfg: values are constant strings, the output-directory parameter, path.Join(<dir>, <const>), constant lists / struct literals, the three controlling conditions as symbolic booleans and errors as {nil, non-nil[not-exist?]}; local closures and same-package helpers whose file arguments depend on their parameters are inlined, ranges over constant lists unrolled, every error-returning call forks into success and failure. For every owned file name every success exit of the generating function has settled the file (write through the single truncating writer, or os.Remove), never removes after writing, and ends written exactly when the documented condition held; a real (other than not-exist) failure of os.Remove never reaches a success exit. Who-may-call: the file-system mutators reachable from Generate*/main are exactly the enumerated sites and every os.Remove site resolves to owned names on every interpreted path. Holds for all invocation histories by induction: each successful run settles every owned file regardless of prior state."
 	r.Rule("C19/settle-every-file", "on every path of the generating function to `return nil`, each owned file's last event is write (iff its condition is true) or remove (iff false); no remove after write")
 	r.Rule("C19/truncate", "the writer opens its path with constant flags containing O_WRONLY|O_CREATE|O_TRUNC and not O_APPEND/O_EXCL")
 	r.Rule("C19/owner-only", "file-system mutators reachable from Generate*/main are exactly the enumerated sites, and every path they touch is path.Join(outDir, <owned const>)")
@@ -82,7 +78,6 @@ func runC19(r *Report) {
 	p := s.Pkgs[modPath]
 	c := &c19{r: r, s: s, p: p, info: p.TypesInfo, writers: map[*types.Func]int{}}
 	c.findWriters()
-	c.findRemovers()
 	ruleTruncate(r, s, "C19/truncate")
 	ruleFSReads(r, s, "C19/reads-enumerated")
 	// "re-running the same invocation changes nothing": the written bytes must be a function of
@@ -178,360 +173,6 @@ func (c *c19) findWriters() {
 			})
 		}
 	}
-}
-
-// findRemovers: wrappers around os.Remove(path.Join(dir, name)) with both parts parameters.
-func (c *c19) findRemovers() {
-	c.removers = map[*types.Func][2]int{}
-	for _, fd := range c.funcDecls() {
-		fobj, _ := c.info.Defs[fd.Name].(*types.Func)
-		if fobj == nil {
-			continue
-		}
-		// the remove must be unconditional: a top-level statement preceded by plain bindings only
-		for _, st := range fd.Body.List {
-			var rhs ast.Expr
-			switch x := st.(type) {
-			case *ast.AssignStmt:
-				if len(x.Rhs) == 1 {
-					rhs = x.Rhs[0]
-				}
-			case *ast.ExprStmt:
-				rhs = x.X
-			case *ast.DeclStmt:
-				continue
-			}
-			if rhs == nil {
-				break // control flow before any remove: not a plain wrapper
-			}
-			if call, ok := ast.Unparen(rhs).(*ast.CallExpr); ok && calleeName(c.info, call) == "os.Remove" && len(call.Args) == 1 {
-				if di, ni, ok := c.joinOfParams(fd, call.Args[0], 0); ok {
-					c.removers[fobj] = [2]int{di, ni}
-				}
-				break
-			}
-		}
-	}
-}
-
-// joinOfParams: e is path.Join(<param i>, <param j>), possibly through one single-assigned local.
-func (c *c19) joinOfParams(fd *ast.FuncDecl, e ast.Expr, depth int) (di, ni int, ok bool) {
-	e = ast.Unparen(e)
-	if call, isCall := e.(*ast.CallExpr); isCall {
-		nm := calleeName(c.info, call)
-		if (nm == "path.Join" || nm == "path/filepath.Join") && len(call.Args) == 2 {
-			d, n := identObj(c.info, call.Args[0]), identObj(c.info, call.Args[1])
-			if d != nil && n != nil {
-				di, ni = paramIndex(c.info, fd, d), paramIndex(c.info, fd, n)
-				if di >= 0 && ni >= 0 {
-					return di, ni, true
-				}
-			}
-		}
-		return 0, 0, false
-	}
-	if id, isId := e.(*ast.Ident); isId && depth < 2 {
-		if _, call, ok := c.singleAssignCall(fd, identObj(c.info, id)); ok && call != nil {
-			return c.joinOfParams(fd, call, depth+1)
-		}
-	}
-	return 0, 0, false
-}
-
-// nameSet: the constant file names an expression can denote: a constant, or the value variable
-// of a `for _, v := range []string{<consts>}` loop of the function.
-func (c *c19) nameSet(fd *ast.FuncDecl, e ast.Expr) ([]string, bool) {
-	if tv := c.info.Types[e]; tv.Value != nil && tv.Value.Kind() == constant.String {
-		return []string{constant.StringVal(tv.Value)}, true
-	}
-	// v, or v.<field> of a struct element
-	var fieldName string
-	base := ast.Unparen(e)
-	if sel, ok := base.(*ast.SelectorExpr); ok {
-		if s := c.info.Selections[sel]; s != nil && s.Kind() == types.FieldVal {
-			fieldName = sel.Sel.Name
-			base = sel.X
-		}
-	}
-	o := identObj(c.info, base)
-	if o == nil {
-		return nil, false
-	}
-	var names []string
-	found := false
-	ast.Inspect(fd.Body, func(n ast.Node) bool {
-		rs, ok := n.(*ast.RangeStmt)
-		if !ok || rs.Value == nil || identObj(c.info, rs.Value) != o && c.info.Defs[identOf(rs.Value)] != o {
-			return true
-		}
-		cl := c.constSliceLit(fd, rs.X)
-		if cl == nil {
-			return true
-		}
-		var ns []string
-		for _, el := range cl.Elts {
-			ve := el
-			if fieldName != "" {
-				ecl, ok := ast.Unparen(el).(*ast.CompositeLit)
-				if !ok {
-					return true
-				}
-				ve = nil
-				st, _ := c.info.TypeOf(ecl).Underlying().(*types.Struct)
-				for k, fe := range ecl.Elts {
-					if kv, isKV := fe.(*ast.KeyValueExpr); isKV {
-						if id, ok := kv.Key.(*ast.Ident); ok && id.Name == fieldName {
-							ve = kv.Value
-						}
-					} else if st != nil && k < st.NumFields() && st.Field(k).Name() == fieldName {
-						ve = fe
-					}
-				}
-				if ve == nil {
-					return true
-				}
-			}
-			tv := c.info.Types[ve]
-			if tv.Value == nil || tv.Value.Kind() != constant.String {
-				return true
-			}
-			ns = append(ns, constant.StringVal(tv.Value))
-		}
-		// the loop body must not skip elements
-		skip := false
-		ast.Inspect(rs.Body, func(m ast.Node) bool {
-			if b, ok := m.(*ast.BranchStmt); ok && (b.Tok == token.CONTINUE || b.Tok == token.BREAK || b.Tok == token.GOTO) {
-				skip = true
-			}
-			return true
-		})
-		if !skip && len(ns) > 0 {
-			names, found = ns, true
-		}
-		return true
-	})
-	return names, found
-}
-
-// constSliceLit: e is a composite literal of a slice/array, or a variable assigned exactly once
-// from one (and never appended to / indexed for writing).
-func (c *c19) constSliceLit(fd *ast.FuncDecl, e ast.Expr) *ast.CompositeLit {
-	e = ast.Unparen(e)
-	if cl, ok := e.(*ast.CompositeLit); ok {
-		return cl
-	}
-	o := identObj(c.info, e)
-	if o == nil {
-		return nil
-	}
-	var rhs []ast.Expr
-	mutated := false
-	ast.Inspect(fd.Body, func(n ast.Node) bool {
-		switch x := n.(type) {
-		case *ast.AssignStmt:
-			for i, l := range x.Lhs {
-				if identObj(c.info, l) == o {
-					if len(x.Lhs) == len(x.Rhs) {
-						rhs = append(rhs, x.Rhs[i])
-					} else {
-						mutated = true
-					}
-				}
-				if ix, ok := ast.Unparen(l).(*ast.IndexExpr); ok && identObj(c.info, ix.X) == o {
-					mutated = true
-				}
-			}
-		case *ast.UnaryExpr:
-			if x.Op == token.AND && identObj(c.info, x.X) == o {
-				mutated = true
-			}
-		}
-		return true
-	})
-	if mutated || len(rhs) != 1 {
-		return nil
-	}
-	cl, _ := ast.Unparen(rhs[0]).(*ast.CompositeLit)
-	return cl
-}
-
-// ownedNames: e is path.Join(<dir param>, X) with X ranging over constant names (nameSet).
-func (c *c19) ownedNames(fd *ast.FuncDecl, e ast.Expr) ([]string, bool) {
-	call, ok := ast.Unparen(e).(*ast.CallExpr)
-	if !ok {
-		return nil, false
-	}
-	nm := calleeName(c.info, call)
-	if (nm != "path.Join" && nm != "path/filepath.Join") || len(call.Args) != 2 {
-		return nil, false
-	}
-	d := identObj(c.info, call.Args[0])
-	if d == nil || paramIndex(c.info, fd, d) < 0 {
-		return nil, false
-	}
-	return c.nameSet(fd, call.Args[1])
-}
-
-func identOf(e ast.Expr) *ast.Ident {
-	id, _ := ast.Unparen(e).(*ast.Ident)
-	return id
-}
-
-// removerCall: call is F(dir, name) of a remover with dir a parameter of fd; returns the names.
-func (c *c19) removerCall(fd *ast.FuncDecl, call *ast.CallExpr) (names []string, isRemover, ok bool) {
-	callee, _ := typeutil.Callee(c.info, call).(*types.Func)
-	if callee == nil {
-		return nil, false, false
-	}
-	idx, isR := c.removers[callee]
-	if !isR || idx[0] >= len(call.Args) || idx[1] >= len(call.Args) {
-		return nil, isR, false
-	}
-	d := identObj(c.info, call.Args[idx[0]])
-	if d == nil || paramIndex(c.info, fd, d) < 0 {
-		return nil, true, false
-	}
-	names, ok = c.nameSet(fd, call.Args[idx[1]])
-	return names, true, ok
-}
-
-func (c *c19) truncate() {
-	n := 0
-	for _, fd := range c.funcDecls() {
-		key := funcKey(c.p, fd)
-		ast.Inspect(fd.Body, func(nd ast.Node) bool {
-			call, ok := nd.(*ast.CallExpr)
-			if !ok {
-				return true
-			}
-			if calleeName(c.info, call) != "os.OpenFile" || len(call.Args) != 3 {
-				return true
-			}
-			n++
-			tv := c.info.Types[call.Args[1]]
-			if tv.Value == nil {
-				c.r.Violation("C19/truncate", key+":os.OpenFile flags", c.s.pos(call.Pos()), "open flags are not a compile-time constant")
-				return true
-			}
-			fl, _ := constant.Int64Val(tv.Value)
-			osc := func(name string) int64 {
-				if imp := c.p.Imports["os"]; imp != nil {
-					if k, ok := imp.Types.Scope().Lookup(name).(*types.Const); ok {
-						v, _ := constant.Int64Val(k.Val())
-						return v
-					}
-				}
-				c.r.Break("os.%s not found", name)
-				return 0
-			}
-			oWRONLY, oRDWR, oAPPEND, oCREATE, oEXCL, oTRUNC := osc("O_WRONLY"), osc("O_RDWR"), osc("O_APPEND"), osc("O_CREATE"), osc("O_EXCL"), osc("O_TRUNC")
-			okFlags := (fl&oWRONLY != 0 || fl&oRDWR != 0) && fl&oCREATE != 0 && fl&oTRUNC != 0 && fl&oAPPEND == 0 && fl&oEXCL == 0
-			c.r.Check(okFlags, "C19/truncate", key+":os.OpenFile flags", c.s.pos(call.Pos()),
-				fmt.Sprintf("flags %s = %#x lack O_WRONLY|O_CREATE|O_TRUNC or include O_APPEND/O_EXCL: an existing longer file would keep stale bytes (or the rewrite would fail)", types.ExprString(call.Args[1]), fl))
-			// the bytes written must be written through the opened file only: covered by owner-only
-			return true
-		})
-	}
-	c.r.FloorMin("os.OpenFile sites in package goag", n, 1)
-}
-
-// ownedName resolves an expression to the constant c of path.Join(outDir, c).
-func (c *c19) ownedName(fd *ast.FuncDecl, e ast.Expr, depth int) (name string, dirParam types.Object, ok bool) {
-	e = ast.Unparen(e)
-	if call, isCall := e.(*ast.CallExpr); isCall {
-		nm := calleeName(c.info, call)
-		if (nm == "path.Join" || nm == "path/filepath.Join") && len(call.Args) == 2 {
-			tv := c.info.Types[call.Args[1]]
-			d := identObj(c.info, call.Args[0])
-			if tv.Value != nil && tv.Value.Kind() == constant.String && d != nil && paramIndex(c.info, fd, d) >= 0 {
-				return constant.StringVal(tv.Value), d, true
-			}
-		}
-		return "", nil, false
-	}
-	if id, isId := e.(*ast.Ident); isId && depth < 2 {
-		obj := identObj(c.info, id)
-		if obj == nil {
-			return "", nil, false
-		}
-		// exactly one assignment/definition in the function
-		var rhs []ast.Expr
-		ast.Inspect(fd.Body, func(n ast.Node) bool {
-			if as, ok := n.(*ast.AssignStmt); ok {
-				for i, l := range as.Lhs {
-					if identObj(c.info, l) == obj && len(as.Lhs) == len(as.Rhs) {
-						rhs = append(rhs, as.Rhs[i])
-					} else if identObj(c.info, l) == obj {
-						rhs = append(rhs, nil)
-					}
-				}
-			}
-			return true
-		})
-		if len(rhs) == 1 && rhs[0] != nil {
-			return c.ownedName(fd, rhs[0], depth+1)
-		}
-	}
-	return "", nil, false
-}
-
-type c19event struct {
-	kind string // "write" | "remove"
-	file string
-	pos  token.Pos
-}
-
-func (c *c19) eventsOf(fd *ast.FuncDecl, n ast.Node) (evs []c19event, bad []string) {
-	ast.Inspect(n, func(m ast.Node) bool {
-		if _, ok := m.(*ast.FuncLit); ok {
-			return false
-		}
-		call, ok := m.(*ast.CallExpr)
-		if !ok {
-			return true
-		}
-		nm := calleeName(c.info, call)
-		if fo, _ := c.info.Defs[fd.Name].(*types.Func); nm == "os.Remove" && c.isRemover(fo) {
-			return true // the wrapper itself: its call sites carry the events
-		}
-		if nm == "os.Remove" && len(call.Args) == 1 {
-			if name, _, ok := c.ownedName(fd, call.Args[0], 0); ok {
-				evs = append(evs, c19event{"remove", name, call.Pos()})
-			} else {
-				bad = append(bad, "os.Remove("+types.ExprString(call.Args[0])+") is not path.Join(<outDir param>, <const>)")
-			}
-			return true
-		}
-		if names, isR, ok := c.removerCall(fd, call); isR {
-			if ok {
-				for _, nm := range names {
-					evs = append(evs, c19event{"remove", nm, call.Pos()})
-				}
-			} else {
-				bad = append(bad, types.ExprString(call)+" does not remove path.Join(<outDir param>, <const names>)")
-			}
-			return true
-		}
-		if callee, ok := typeutil.Callee(c.info, call).(*types.Func); ok {
-			if wi, isW := c.writers[callee]; isW && wi < len(call.Args) {
-				arg := call.Args[wi]
-				if o := identObj(c.info, arg); o != nil && paramIndex(c.info, fd, o) >= 0 {
-					return true // pass-through of own parameter (writer chain)
-				}
-				if name, _, ok := c.ownedName(fd, arg, 0); ok {
-					evs = append(evs, c19event{"write", name, call.Pos()})
-				} else if names, ok := c.ownedNames(fd, arg); ok {
-					for _, nm := range names {
-						evs = append(evs, c19event{"write", nm, call.Pos()})
-					}
-				} else {
-					bad = append(bad, callee.Name()+"("+types.ExprString(arg)+") is not path.Join(<outDir param>, <const>)")
-				}
-			}
-		}
-		return true
-	})
-	return
 }
 
 // condKind classifies a branch condition into a polarity-table key.
@@ -741,93 +382,6 @@ func (c *c19) usedAsJoinDir(fd *ast.FuncDecl, o types.Object) bool {
 	return used
 }
 
-// removeErrors: `err = os.Remove(x)` must be followed by `if err != nil { if !os.IsNotExist(err) { return …err… } }`
-// or `if err != nil { return … }` / `if err != nil && !os.IsNotExist(err) { return … }`.
-func (c *c19) removeErrors(fd *ast.FuncDecl, fkey string) {
-	var visit func(list []ast.Stmt)
-	check := func(list []ast.Stmt, i int, call *ast.CallExpr, errObj types.Object) {
-		name, _, _ := c.ownedName(fd, call.Args[0], 0)
-		key := fkey + ":os.Remove(" + name + ")"
-		if c.isRemoverCall(call) {
-			key = fkey + ":" + types.ExprString(call.Fun) + "(" + argStr(call) + ")"
-		}
-		if errObj == nil {
-			c.r.Violation("C19/error-not-swallowed", key, c.s.pos(call.Pos()), "error of os.Remove is discarded: a stale file that cannot be removed would go unnoticed")
-			return
-		}
-		if i+1 >= len(list) {
-			c.r.Violation("C19/error-not-swallowed", key, c.s.pos(call.Pos()), "error of os.Remove is not tested")
-			return
-		}
-		ifs, ok := list[i+1].(*ast.IfStmt)
-		if !ok || !c.condTestsErr(ifs.Cond, errObj) {
-			c.r.Violation("C19/error-not-swallowed", key, c.s.pos(call.Pos()), "statement after os.Remove is not `if err != nil`")
-			return
-		}
-		if c.returnsNonNilUnless(ifs, errObj) {
-			c.r.OK("C19/error-not-swallowed", key, c.s.pos(call.Pos()), "")
-		} else {
-			c.r.Violation("C19/error-not-swallowed", key, c.s.pos(call.Pos()), "a remove error other than not-exist does not lead to a non-nil error return")
-		}
-	}
-	visit = func(list []ast.Stmt) {
-		for i, st := range list {
-			switch st := st.(type) {
-			case *ast.AssignStmt:
-				if len(st.Rhs) == 1 {
-					if call, ok := st.Rhs[0].(*ast.CallExpr); ok && (calleeName(c.info, call) == "os.Remove" && len(call.Args) == 1 || c.isRemoverCall(call)) {
-						var eo types.Object
-						if len(st.Lhs) == 1 {
-							if id, ok := st.Lhs[0].(*ast.Ident); ok && id.Name != "_" {
-								eo = identObj(c.info, id)
-							}
-						}
-						check(list, i, call, eo)
-					}
-				}
-			case *ast.ExprStmt:
-				if call, ok := st.X.(*ast.CallExpr); ok && (calleeName(c.info, call) == "os.Remove" && len(call.Args) == 1 || c.isRemoverCall(call)) {
-					check(list, i, call, nil)
-				}
-			case *ast.IfStmt:
-				if st.Init != nil {
-					// if err := os.Remove(x); err != nil {...}
-					if as, ok := st.Init.(*ast.AssignStmt); ok && len(as.Rhs) == 1 {
-						if call, ok := as.Rhs[0].(*ast.CallExpr); ok && calleeName(c.info, call) == "os.Remove" && len(call.Args) == 1 {
-							eo := identObj(c.info, as.Lhs[0])
-							name, _, _ := c.ownedName(fd, call.Args[0], 0)
-							key := fkey + ":os.Remove(" + name + ")"
-							if c.condTestsErr(st.Cond, eo) && c.returnsNonNilUnless(st, eo) {
-								c.r.OK("C19/error-not-swallowed", key, c.s.pos(call.Pos()), "")
-							} else {
-								c.r.Violation("C19/error-not-swallowed", key, c.s.pos(call.Pos()), "a remove error other than not-exist does not lead to a non-nil error return")
-							}
-						}
-					}
-				}
-				visit(st.Body.List)
-				if b, ok := st.Else.(*ast.BlockStmt); ok {
-					visit(b.List)
-				} else if e, ok := st.Else.(*ast.IfStmt); ok {
-					visit([]ast.Stmt{e})
-				}
-			case *ast.BlockStmt:
-				visit(st.List)
-			case *ast.ForStmt:
-				visit(st.Body.List)
-			case *ast.RangeStmt:
-				visit(st.Body.List)
-			}
-		}
-	}
-	visit(fd.Body.List)
-}
-
-func (c *c19) isRemoverCall(call *ast.CallExpr) bool {
-	callee, _ := typeutil.Callee(c.info, call).(*types.Func)
-	return c.isRemover(callee)
-}
-
 // condTestsErr: cond is `err != nil` possibly && !os.IsNotExist(err)
 func (c *c19) condTestsErr(e ast.Expr, errObj types.Object) bool {
 	e = ast.Unparen(e)
@@ -842,27 +396,6 @@ func (c *c19) condTestsErr(e ast.Expr, errObj types.Object) bool {
 	return false
 }
 
-func (c *c19) isNotExistFilter(e ast.Expr, errObj types.Object) bool {
-	u, ok := ast.Unparen(e).(*ast.UnaryExpr)
-	if !ok || u.Op != token.NOT {
-		return false
-	}
-	call, ok := ast.Unparen(u.X).(*ast.CallExpr)
-	if !ok {
-		return false
-	}
-	nm := calleeName(c.info, call)
-	if nm == "os.IsNotExist" && len(call.Args) == 1 && identObj(c.info, call.Args[0]) == errObj {
-		return true
-	}
-	if nm == "errors.Is" && len(call.Args) == 2 && identObj(c.info, call.Args[0]) == errObj {
-		if calleeOrVar(c.info, call.Args[1]) == "os.ErrNotExist" || calleeOrVar(c.info, call.Args[1]) == "io/fs.ErrNotExist" {
-			return true
-		}
-	}
-	return false
-}
-
 func calleeOrVar(info *types.Info, e ast.Expr) string {
 	if sel, ok := ast.Unparen(e).(*ast.SelectorExpr); ok {
 		if o := info.Uses[sel.Sel]; o != nil && o.Pkg() != nil {
@@ -870,199 +403,6 @@ func calleeOrVar(info *types.Info, e ast.Expr) string {
 		}
 	}
 	return ""
-}
-
-// returnsNonNilUnless: the if-body (entered when err != nil [&& !IsNotExist]) returns a non-nil
-// error, either directly or under the single filter `if !os.IsNotExist(err)`.
-func (c *c19) returnsNonNilUnless(ifs *ast.IfStmt, errObj types.Object) bool {
-	retNonNil := func(list []ast.Stmt) bool {
-		if len(list) == 0 {
-			return false
-		}
-		ret, ok := list[len(list)-1].(*ast.ReturnStmt)
-		if !ok || len(ret.Results) == 0 {
-			return false
-		}
-		last := ret.Results[len(ret.Results)-1]
-		if isNilIdent(last) {
-			return false
-		}
-		t := c.info.TypeOf(last)
-		return t != nil && types.Implements(t, types.Universe.Lookup("error").Type().Underlying().(*types.Interface))
-	}
-	if b, ok := ast.Unparen(ifs.Cond).(*ast.BinaryExpr); ok && b.Op == token.LAND {
-		if c.isNotExistFilter(b.Y, errObj) {
-			return retNonNil(ifs.Body.List)
-		}
-		return false
-	}
-	if retNonNil(ifs.Body.List) {
-		return true
-	}
-	if len(ifs.Body.List) == 1 {
-		if inner, ok := ifs.Body.List[0].(*ast.IfStmt); ok && inner.Else == nil && c.isNotExistFilter(inner.Cond, errObj) {
-			return retNonNil(inner.Body.List)
-		}
-	}
-	return false
-}
-
-// pathSensitive explores the CFG with state (per-file last event, per-condition assumption).
-func (c *c19) pathSensitive(fd *ast.FuncDecl, fkey string, files []string) {
-	g := cfg.New(fd.Body, func(call *ast.CallExpr) bool {
-		nm := calleeName(c.info, call)
-		return nm != "log.Fatal" && nm != "log.Fatalf" && nm != "os.Exit" && nm != "panic"
-	})
-	type state struct {
-		ev   map[string]string // file -> none|write|remove
-		cond map[string]int    // kind -> +1 true, -1 false
-	}
-	enc := func(s state) string {
-		var sb strings.Builder
-		for _, f := range files {
-			sb.WriteString(f + "=" + s.ev[f] + ";")
-		}
-		var ks []string
-		for k := range s.cond {
-			ks = append(ks, k)
-		}
-		sort.Strings(ks)
-		for _, k := range ks {
-			fmt.Fprintf(&sb, "%s=%d;", k, s.cond[k])
-		}
-		return sb.String()
-	}
-	clone := func(s state) state {
-		n := state{ev: map[string]string{}, cond: map[string]int{}}
-		for k, v := range s.ev {
-			n.ev[k] = v
-		}
-		for k, v := range s.cond {
-			n.cond[k] = v
-		}
-		return n
-	}
-	seen := map[string]bool{}
-	reported := map[string]bool{}
-	nReturns, nPaths := 0, 0
-	viol := func(key, pos, detail string) {
-		if !reported[key+detail] {
-			reported[key+detail] = true
-			c.r.Violation("C19/settle-every-file", key, pos, detail)
-		}
-	}
-	var walk func(b *cfg.Block, s state)
-	walk = func(b *cfg.Block, s state) {
-		k := fmt.Sprintf("%d|%s", b.Index, enc(s))
-		if seen[k] {
-			return
-		}
-		seen[k] = true
-		s = clone(s)
-		for _, n := range b.Nodes {
-			evs, _ := c.eventsOf(fd, n)
-			for _, e := range evs {
-				if e.kind == "remove" && s.ev[e.file] == "write" {
-					viol(fkey+":"+e.file, c.s.pos(e.pos), "os.Remove after the file was written on the same path: the freshly generated file is deleted")
-				}
-				s.ev[e.file] = e.kind
-			}
-			if ret, ok := n.(*ast.ReturnStmt); ok {
-				success := len(ret.Results) > 0 && isNilIdent(ret.Results[len(ret.Results)-1])
-				if len(ret.Results) == 0 {
-					success = true // named results: treat conservatively as success
-				}
-				if success {
-					nReturns++
-					nPaths++
-					for _, f := range files {
-						pol, okp := c19Polarity[f]
-						if !okp {
-							continue
-						}
-						cv := s.cond[pol.cond]
-						key := fkey + ":" + f
-						switch s.ev[f] {
-						case "":
-							viol(key, c.s.pos(ret.Pos()), "a path reaches `return nil` without writing or removing "+f+": a stale copy from an earlier invocation survives")
-						case "write":
-							if cv != 1 {
-								viol(key, c.s.pos(ret.Pos()), fmt.Sprintf("%s is written on a path where its condition (%s: %s) is not established true", f, pol.cond, pol.why))
-							}
-						case "remove":
-							if cv != -1 {
-								viol(key, c.s.pos(ret.Pos()), fmt.Sprintf("%s is removed (and not rewritten) on a path where its condition (%s: %s) is not established false", f, pol.cond, pol.why))
-							}
-						}
-					}
-				}
-			}
-		}
-		if len(b.Succs) == 2 && len(b.Nodes) > 0 {
-			if e, ok := b.Nodes[len(b.Nodes)-1].(ast.Expr); ok {
-				if kind, neg := c.condKind(e); kind != "" {
-					tv, fv := 1, -1
-					if neg {
-						tv, fv = -1, 1
-					}
-					if s.cond[kind] != -tv {
-						s1 := clone(s)
-						s1.cond[kind] = tv
-						walk(b.Succs[0], s1)
-					}
-					if s.cond[kind] != -fv {
-						s2 := clone(s)
-						s2.cond[kind] = fv
-						walk(b.Succs[1], s2)
-					}
-					return
-				}
-			}
-		}
-		// a range over a non-empty constant literal runs its body at least once: the
-		// head→done edge is feasible only after the body was entered
-		if b.Kind == cfg.KindRangeLoop && len(b.Succs) == 2 {
-			if rs, ok := b.Stmt.(*ast.RangeStmt); ok {
-				if cl := c.constSliceLit(fd, rs.X); cl != nil && len(cl.Elts) > 0 {
-					lk := fmt.Sprintf("loop@%d", rs.Pos())
-					body, done := b.Succs[0], b.Succs[1]
-					if body.Kind != cfg.KindRangeBody {
-						body, done = done, body
-					}
-					s1 := clone(s)
-					s1.cond[lk] = 1
-					walk(body, s1)
-					if s.cond[lk] == 1 {
-						walk(done, s)
-					}
-					return
-				}
-			}
-		}
-		for _, nb := range b.Succs {
-			walk(nb, s)
-		}
-	}
-	init := state{ev: map[string]string{}, cond: map[string]int{}}
-	walk(g.Blocks[0], init)
-	c.r.Analysed["cfg_blocks:"+fkey] = len(g.Blocks)
-	c.r.Analysed["abstract_states_explored:"+fkey] = len(seen)
-	c.r.Analysed["success_returns_reached:"+fkey] = nReturns
-	if nReturns == 0 {
-		c.r.Undecided("C19/settle-every-file", fkey, c.s.pos(fd.Pos()), "no success return found in the generating function")
-	}
-	for _, f := range files {
-		key := fkey + ":" + f
-		hit := false
-		for k := range reported {
-			if strings.HasPrefix(k, key) {
-				hit = true
-			}
-		}
-		if !hit {
-			c.r.OK("C19/settle-every-file", key, c.s.pos(fd.Pos()), "settled on every success path with the documented polarity")
-		}
-	}
 }
 
 // ownerOnly: enumerate file-system mutators in reachable repo functions.
@@ -1160,11 +500,6 @@ func (c *c19) ownerOnly() {
 	c.r.FloorMin("resolved (operation, owned file) pairs", pairs, 10)
 }
 
-func (c *c19) isRemover(f *types.Func) bool {
-	_, ok := c.removers[f]
-	return f != nil && ok
-}
-
 func argStr(call *ast.CallExpr) string {
 	var as []string
 	for _, a := range call.Args {
@@ -1192,4 +527,9 @@ func (c *c19) singleAssignCall(fd *ast.FuncDecl, obj types.Object) (callee strin
 		return true
 	})
 	return callee, call, n == 1 && call != nil
+}
+
+func identOf(e ast.Expr) *ast.Ident {
+	id, _ := ast.Unparen(e).(*ast.Ident)
+	return id
 }
